@@ -1,6 +1,7 @@
 package checks
 
 import (
+	"sync"
 	"os"
 	"strconv"
 	"bytes"
@@ -238,3 +239,5 @@ func getenvInt(name string, def int) int {
 	}
 	return def
 }
+
+type lockT = sync.Mutex
